@@ -198,6 +198,14 @@ void absorb(Agg& a, const std::string& line) {
   }
 }
 
+std::string readFileHead(const std::string& p, size_t maxBytes = 9000) {
+  std::ifstream f(p);
+  if (!f) return "";
+  std::string s(maxBytes, 0);
+  f.read(&s[0], maxBytes);
+  s.resize(f.gcount());
+  return s;
+}
 std::string readFileTail(const std::string& p, size_t maxBytes = 20000) {
   std::ifstream f(p);
   if (!f) return "";
@@ -210,7 +218,7 @@ std::string readFileTail(const std::string& p, size_t maxBytes = 20000) {
 
 // turn a dead child's artefacts into (kind, detail)
 std::pair<std::string, std::string> crashInfo(pid_t pid, int status, const std::string& errFile) {
-  std::string san = readFileTail(g_tmp + "/san." + std::to_string(pid));
+  std::string san = readFileHead(g_tmp + "/san." + std::to_string(pid));
   std::string term = readFileTail(termFile().substr(0, termFile().rfind('.')) + "." + std::to_string(pid));
   std::string err = readFileTail(errFile, 4000);
   std::string kind;
@@ -632,7 +640,7 @@ int main(int argc, char** argv, Driver& d) {
     }
   }
   uint64_t claimed = std::min<uint64_t>(sh->next.load(), c.N);
-  bool exhaustive = !deadlineHit && !sh->stop && claimed >= c.N && undone == 0;
+  bool exhaustive = !deadlineHit && !sh->stop && claimed >= c.N && undone == 0 && crashes.empty();
 
   // ---- verification pass: crashes are re-run alone; every distinct violation is replayed twice
   struct Final {
